@@ -569,3 +569,17 @@ func init() {
 		return append(b05(), planItem{register(worldScenario("C05", specStoreDown, chainOracle)), 2, 3})
 	}
 }
+
+// events with every field filled: script-written account and transaction metadata, a reference, an amount beyond 64 bits
+var specEventsRich = worldSpec{Name: "events-rich-content", Seed: seedTxs(ledger.Postings{post("world", "a", 100)}),
+	Gen1: []reqSpec{{Name: "c1", Kind: "create", Ref: "invoice-1",
+		Script: "send [X 18446744073709551617] (\n  source = @world\n  destination = @rich\n)\nset_account_meta(@rich, \"vip\", \"yes\")\nset_tx_meta(\"note\", \"first\")\n"},
+		{Name: "r0", Kind: "revert", TxID: 0},
+		{Name: "m1", Kind: "savemeta", TargetType: ledger.MetaTargetTypeTransaction, TargetID: big.NewInt(0), Meta: metadata.Metadata{"a": "1", "b": "2"}}}}
+
+func init() {
+	b16 := plans["C16"]
+	plans["C16"] = func() []planItem {
+		return append(b16(), planItem{register(worldScenario("C16", specEventsRich, eventOracle)), 2, 3})
+	}
+}
